@@ -1100,6 +1100,10 @@ func ord2Wraps(x, y ssa.Value, seen map[ssa.Value]bool) bool {
 			}
 			return found
 		case *ssa.FieldAddr:
+			// a field of a local struct variable that y is a load of (the spilled form of *ssa.Field)
+			if yl, ok := y.(*ssa.UnOp); ok && yl.Op == token.MUL && yl.X == al.X {
+				return true
+			}
 			return ord2Wraps(al.X, y, seen)
 		}
 	}
